@@ -78,7 +78,11 @@ class MessageHandler(Virtual):
         if match is None:
             return False
 
-        message_num = int(match.groups()[0])
+        try:
+            message_num = int(match.groups()[0])
+        except ValueError:
+            # More digits than int() converts: no mailbox is that long.
+            return False
         if message_num < 1:
             return False
 
